@@ -56,15 +56,10 @@ pub struct TaikoGradualDifficulty {
     diff_objects_iter: Iter<'static, RefCount<TaikoDifficultyObject>>,
     skills: TaikoSkills,
     total_hits: usize,
-    first_combos: FirstTwoCombos,
-}
-
-#[derive(Copy, Clone, Debug)]
-enum FirstTwoCombos {
-    None,
-    OnlyFirst,
-    OnlySecond,
-    Both,
+    /// Whether the object at an index is a hit.
+    is_hit: Box<[bool]>,
+    /// Amount of objects that have been passed so far, hit or not.
+    pos: usize,
 }
 
 impl TaikoGradualDifficulty {
@@ -78,16 +73,6 @@ impl TaikoGradualDifficulty {
 
         let take = difficulty.get_passed_objects();
         let clock_rate = difficulty.get_clock_rate();
-
-        let first_combos = match (
-            map.hit_objects.first().map(HitObject::is_circle),
-            map.hit_objects.get(1).map(HitObject::is_circle),
-        ) {
-            (None, _) | (Some(false), Some(false) | None) => FirstTwoCombos::None,
-            (Some(true), Some(false) | None) => FirstTwoCombos::OnlyFirst,
-            (Some(false), Some(true)) => FirstTwoCombos::OnlySecond,
-            (Some(true), Some(true)) => FirstTwoCombos::Both,
-        };
 
         let HitWindows {
             od_great,
@@ -117,7 +102,8 @@ impl TaikoGradualDifficulty {
             ..Default::default()
         };
 
-        let total_hits = map.hit_objects.iter().filter(|h| h.is_circle()).count();
+        let is_hit: Box<[bool]> = map.hit_objects.iter().map(HitObject::is_circle).collect();
+        let total_hits = is_hit.iter().filter(|is_hit| **is_hit).count();
 
         let diff_objects_iter = extend_lifetime(diff_objects.iter());
 
@@ -129,7 +115,8 @@ impl TaikoGradualDifficulty {
             skills,
             attrs,
             total_hits,
-            first_combos,
+            is_hit,
+            pos: 0,
         })
     }
 }
@@ -141,16 +128,19 @@ fn extend_lifetime(
     unsafe { mem::transmute(iter) }
 }
 
-impl Iterator for TaikoGradualDifficulty {
-    type Item = TaikoDifficultyAttributes;
+impl TaikoGradualDifficulty {
+    /// Passes all objects up to and including the next hit.
+    ///
+    /// Returns `None` if there is no further hit.
+    fn pass_next_hit(&mut self) -> Option<()> {
+        loop {
+            let is_hit = *self.is_hit.get(self.pos)?;
 
-    fn next(&mut self) -> Option<Self::Item> {
-        // The first difficulty object belongs to the third note since each
-        // difficulty object requires the current, the last, and the second to
-        // last note. Hence, if we're still on the first or second object, we
-        // don't have a difficulty object yet and just skip processing.
-        if self.idx >= 2 {
-            loop {
+            // The first difficulty object belongs to the third object since
+            // each difficulty object requires the current, the last, and the
+            // second to last object. Hence, the first two objects only add to
+            // the combo.
+            if self.pos >= 2 {
                 let curr = self.diff_objects_iter.next()?;
                 let borrowed = curr.get();
 
@@ -161,26 +151,25 @@ impl Iterator for TaikoGradualDifficulty {
                 self.skills
                     .single_color_stamina
                     .process(&borrowed, &self.diff_objects);
-
-                if borrowed.base_hit_type.is_hit() {
-                    self.attrs.max_combo += 1;
-
-                    break;
-                }
             }
-        } else if self.diff_objects.is_empty() {
-            return None;
-        } else {
-            match self.first_combos {
-                FirstTwoCombos::OnlyFirst => self.attrs.max_combo = 1,
-                FirstTwoCombos::OnlySecond if self.idx == 1 => self.attrs.max_combo = 1,
-                FirstTwoCombos::Both if self.idx == 0 => self.attrs.max_combo = 1,
-                FirstTwoCombos::Both if self.idx == 1 => self.attrs.max_combo = 2,
-                _ => {}
+
+            self.pos += 1;
+
+            if is_hit {
+                self.attrs.max_combo += 1;
+                self.idx += 1;
+
+                return Some(());
             }
         }
+    }
+}
 
-        self.idx += 1;
+impl Iterator for TaikoGradualDifficulty {
+    type Item = TaikoDifficultyAttributes;
+
+    fn next(&mut self) -> Option<Self::Item> {
+        self.pass_next_hit()?;
 
         let mut attrs = self.attrs.clone();
         let is_relax = self.difficulty.get_mods().rx();
@@ -197,65 +186,8 @@ impl Iterator for TaikoGradualDifficulty {
     }
 
     fn nth(&mut self, n: usize) -> Option<Self::Item> {
-        let mut take = cmp::min(n, self.len());
-
-        // The first two notes have no difficulty object but might add to combo
-        match (take, self.idx) {
-            (_, 2..) | (0, _) => {}
-            (1, 0) => {
-                take -= 1;
-                self.idx += 1;
-
-                match self.first_combos {
-                    FirstTwoCombos::None => {}
-                    FirstTwoCombos::OnlyFirst => self.attrs.max_combo = 1,
-                    FirstTwoCombos::OnlySecond => {}
-                    FirstTwoCombos::Both => self.attrs.max_combo = 1,
-                }
-            }
-            (_, 0) => {
-                take -= 2;
-                self.idx += 2;
-
-                match self.first_combos {
-                    FirstTwoCombos::None => {}
-                    FirstTwoCombos::OnlyFirst => self.attrs.max_combo = 1,
-                    FirstTwoCombos::OnlySecond => self.attrs.max_combo = 1,
-                    FirstTwoCombos::Both => self.attrs.max_combo = 2,
-                }
-            }
-            (_, 1) => {
-                take -= 1;
-                self.idx += 1;
-
-                match self.first_combos {
-                    FirstTwoCombos::None => {}
-                    FirstTwoCombos::OnlyFirst => self.attrs.max_combo = 1,
-                    FirstTwoCombos::OnlySecond => self.attrs.max_combo = 1,
-                    FirstTwoCombos::Both => self.attrs.max_combo = 2,
-                }
-            }
-        }
-
-        for _ in 0..take {
-            loop {
-                let curr = self.diff_objects_iter.next()?;
-                let borrowed = curr.get();
-                self.skills.rhythm.process(&borrowed, &self.diff_objects);
-                self.skills.reading.process(&borrowed, &self.diff_objects);
-                self.skills.color.process(&borrowed, &self.diff_objects);
-                self.skills.stamina.process(&borrowed, &self.diff_objects);
-                self.skills
-                    .single_color_stamina
-                    .process(&borrowed, &self.diff_objects);
-
-                if borrowed.base_hit_type.is_hit() {
-                    self.attrs.max_combo += 1;
-                    self.idx += 1;
-
-                    break;
-                }
-            }
+        for _ in 0..cmp::min(n, self.len()) {
+            self.pass_next_hit()?;
         }
 
         self.next()
